@@ -101,6 +101,7 @@ type traceRule struct {
 	// compare-and-swap may succeed or fail; used to enumerate the transitions
 	// a function can *attempt* under concurrency.
 	trackAny []string
+	loadSyms bool    // in interference mode, record which value each Load returned ("load:<v>")
 	args     []Value // abstract values bound to the root function's parameters
 }
 
@@ -127,7 +128,11 @@ func (d *traceDom) Call(ip *Interp, fr *Frame, st *State, call *ast.CallExpr, c 
 			case "Load":
 				var outs []Out
 				for _, v := range d.r.trackAny {
-					outs = append(outs, Out{St: ns, Vals: []Value{{Kind: VConst, S: v}}})
+					o := ns
+					if d.r.loadSyms && d.r.step != nil {
+						o = st.WithDom(d.r.step(s, Ev{Name: "load:" + v, Node: call, Call: call, C: c, Fr: fr, Args: args, Ip: ip, St: st}))
+					}
+					outs = append(outs, Out{St: o, Vals: []Value{{Kind: VConst, S: v}}})
 				}
 				return outs, true
 			case "CompareAndSwap":
